@@ -65,6 +65,8 @@ type Universe struct {
 	typeByID []types.Type
 	boxes    map[string]bool
 	needStrExt bool
+	nameOf   map[string]string // full Go type string -> unique short SMT name
+	nameUsed map[string]string // short SMT name -> full Go type string
 	imports  []string // raw SMT text blocks appended after decls
 }
 
@@ -148,9 +150,32 @@ func (u *Universe) typeID(t types.Type) int {
 	return id
 }
 
+// uniqName: SMT-safe short name of a Go type; two different types with the same short name
+// (sync.Mutex and internal/sync.Mutex) get distinct names.
+func (u *Universe) uniqName(t types.Type) string {
+	if u.nameOf == nil {
+		u.nameOf, u.nameUsed = map[string]string{}, map[string]string{}
+	}
+	full := types.TypeString(t, nil)
+	if n, ok := u.nameOf[full]; ok {
+		return n
+	}
+	base := smtName(shortTypeName(t))
+	n := base
+	for i := 2; ; i++ {
+		if prev, used := u.nameUsed[n]; !used || prev == full {
+			break
+		}
+		n = fmt.Sprintf("%s_%d", base, i)
+	}
+	u.nameOf[full] = n
+	u.nameUsed[n] = full
+	return n
+}
+
 // box/unbox function names for a Go type held in an interface.
 func (u *Universe) boxFuncs(t types.Type, s *Sort) (box, unbox string) {
-	k := smtName(shortTypeName(t))
+	k := u.uniqName(t)
 	box, unbox = "box_"+k, "unbox_"+k
 	if !u.boxes[k] {
 		u.boxes[k] = true
@@ -320,7 +345,7 @@ func (u *Universe) sortOf(t types.Type) *Sort {
 }
 
 func (u *Universe) opaque(t types.Type) *Sort {
-	n := "O_" + smtName(shortTypeName(t))
+	n := "O_" + u.uniqName(t)
 	if !u.declared[n] {
 		u.declared[n] = true
 		u.decls = append(u.decls, fmt.Sprintf("(declare-sort %s 0)", n))
@@ -349,7 +374,7 @@ func (u *Universe) setSort(el *Sort) *Sort {
 }
 
 func (u *Universe) structSort(t types.Type, st *types.Struct) *Sort {
-	n := "T_" + smtName(shortTypeName(t))
+	n := "T_" + u.uniqName(t)
 	s := &Sort{Kind: KStruct, Name: n, GoT: t}
 	u.sorts[types.TypeString(t, nil)] = s
 	var fl []string
